@@ -7,6 +7,14 @@
 
   mjtDyn (MuJoCo 3.13): NONE 0, INTEGRATOR 1, FILTER 2, FILTEREXACT 3, MUSCLE 4, DCMOTOR 5, PID 6, USER 7.
 
+  Transmission (`Mjw.Gen.Smooth._transmission`, smooth.py), SITE branch with a reference site: on the two-body topology of
+  `Lemmas/C03Trn.lean` (one site in the world, the other on a body with one dof; all real data, world, actuator, batch sizes,
+  row address, fuel arbitrary) the moment entry is the velocity of the actuated site's OWN point minus the velocity of the
+  reference site's OWN point along the wrench `R_ref g` (`transmission_refsite_moment_at_refsite_point`,
+  `transmission_site_moment_at_site_point`; the complete write lists are `Lemmas.C03Trn.transmission_ref_moves/_site_moves`).
+  Missing: general topologies (loop invariants of the three `whileFuel` loops), rotational gear, the other transmission types
+  — those are compared with MuJoCo per actuator row by the harness (transmission scenes of `harness/props/c03.py`).
+
   Recorded, not hidden:
   * USER (7): `next_act` returns `act_in` unchanged and UNCLAMPED (MuJoCo C integrates the callback's
     `act_dot` by Euler and clips); `next_act_in_range` therefore excludes USER
@@ -22,6 +30,8 @@ import MjwVerif.Gen.Support
 import MjwVerif.Gen.Util_misc
 import MjwVerif.Gen.Forward
 import MjwVerif.Lemmas.C03
+import MjwVerif.Gen.Smooth
+import MjwVerif.Lemmas.C03Trn
 
 namespace Mjw.Props.C03
 open Mjw Mjw.Gen.Support Mjw.Spec.Integrate
@@ -453,5 +463,90 @@ example :
   unfold Gen.Forward._actuator_force
   simp [V10.zero, V10.fill]
   norm_num
+
+/-! ## Site transmission with a reference site: which point each Jacobian column is taken at -/
+
+open Mjw.Lemmas.C03Trn in
+/-- `_transmission`, SITE branch with a reference site, translational gear, on the two-body topology of
+    `Lemmas/C03Trn.lean` (actuated site 0 in the world, REFERENCE site 1 on body 1 which owns dof 0), all real data,
+    world, actuator, batch sizes, row address and fuel ≥ 2 arbitrary: the single moment entry is
+    `−(v + ω × (p_ref − c)) · (R_ref g)` with `(ω, v) = cdof[0]`, `c = subtree_com[root of body 1]`, `p_ref`, `R_ref` the
+    frame of the REFERENCE site — minus the velocity of the reference site's own point along the wrench.
+    (Evaluating the column at the actuated site's position instead changes the value whenever `ω × (p_site − p_ref)`
+    has a component along the wrench; see the example below.) -/
+theorem transmission_refsite_moment_at_refsite_point
+    (nv : Int) (bp br dofbody : Int → Int) (anc : Int → Int → Int) (jt jq jd : Int → Int)
+    (squat : Int → Int → Q ℝ) (tn ta tc : Int → Int) (crank : Int → Int → ℝ) (gear : Int → Int → V6 ℝ)
+    (qpos : Int → Int → ℝ) (xquat : Int → Int → Q ℝ) (sxpos : Int → Int → V3 ℝ) (sxmat : Int → Int → M33 ℝ)
+    (com : Int → Int → V3 ℝ) (cdof : Int → Int → V6 ℝ) (tJ tL : Int → Int → ℝ) (mnnz : Int → Int)
+    (lo : Int → Int → ℝ) (rn ra rc : Int → Int → Int) (mo : Int → Int → ℝ)
+    (gs a0 a1 a2 cs a3 a4 a5 qs a6 a7 : Int) (fuel : Nat) (w a : Int)
+    (hg0 : (gear (Int.tmod w gs) a).c0 ≠ 0)
+    (hg3 : (gear (Int.tmod w gs) a).c3 = 0) (hg4 : (gear (Int.tmod w gs) a).c4 = 0) (hg5 : (gear (Int.tmod w gs) a).c5 = 0)
+    (hworld : anc 0 0 = 0) (hbody : anc 1 0 ≠ 0) :
+    Write.mk "actuator_moment_out" [w, a7]
+        (WVal.f (-(((cdof w 0).bottom.add ((cdof w 0).top.cross ((sxpos w 1).sub (com w (br 1))))).dot
+                    ((sxmat w 1).mulVec (gear (w.tmod gs) a).top)))) WKind.set
+      ∈ Gen.Smooth._transmission (K := ℝ) nv bp br (fun b => b) dofnum dofadr jt jq jd dofbody (fun _ => -1) (fun s => s) squat tn ta tc
+          (fun _ => 4) (fun _ => ⟨0, 1⟩) crank gear anc qpos xquat sxpos sxmat com cdof tJ tL mnnz lo rn ra rc mo
+          gs a0 a1 a2 cs a3 a4 a5 qs a6 a7 (fuel + 2) w a := by
+  rw [transmission_ref_moves nv bp br dofbody anc jt jq jd squat tn ta tc crank gear qpos xquat sxpos sxmat com cdof tJ tL mnnz
+        lo rn ra rc mo gs a0 a1 a2 cs a3 a4 a5 qs a6 a7 fuel w a hg0 hg3 hg4 hg5]
+  simp only [List.mem_cons, List.mem_nil_iff, or_false]
+  right; right; right; right; right
+  simp only [jac_dof, hworld, hbody, decide_true, decide_false, if_true, if_false, Bool.false_eq_true]
+  congr 2
+  simp only [V3.dot, V3.sub, V3.fill, V3.add, slit, hadd, hsub, hmul]
+  ring
+
+open Mjw.Lemmas.C03Trn in
+/-- the mirrored topology (ACTUATED site 1 on the moving body, reference site 0 in the world): the moment entry is
+    `+(v + ω × (p_site − c)) · (R_ref g)`, the velocity of the actuated site's own point along the wrench, the wrench being
+    the gear expressed in the (here fixed) reference frame -/
+theorem transmission_site_moment_at_site_point
+    (nv : Int) (bp br dofbody : Int → Int) (anc : Int → Int → Int) (jt jq jd : Int → Int)
+    (squat : Int → Int → Q ℝ) (tn ta tc : Int → Int) (crank : Int → Int → ℝ) (gear : Int → Int → V6 ℝ)
+    (qpos : Int → Int → ℝ) (xquat : Int → Int → Q ℝ) (sxpos : Int → Int → V3 ℝ) (sxmat : Int → Int → M33 ℝ)
+    (com : Int → Int → V3 ℝ) (cdof : Int → Int → V6 ℝ) (tJ tL : Int → Int → ℝ) (mnnz : Int → Int)
+    (lo : Int → Int → ℝ) (rn ra rc : Int → Int → Int) (mo : Int → Int → ℝ)
+    (gs a0 a1 a2 cs a3 a4 a5 qs a6 a7 : Int) (fuel : Nat) (w a : Int)
+    (hg0 : (gear (Int.tmod w gs) a).c0 ≠ 0)
+    (hg3 : (gear (Int.tmod w gs) a).c3 = 0) (hg4 : (gear (Int.tmod w gs) a).c4 = 0) (hg5 : (gear (Int.tmod w gs) a).c5 = 0)
+    (hworld : anc 0 0 = 0) (hbody : anc 1 0 ≠ 0) :
+    Write.mk "actuator_moment_out" [w, a7]
+        (WVal.f (((cdof w 0).bottom.add ((cdof w 0).top.cross ((sxpos w 1).sub (com w (br 1))))).dot
+                  ((sxmat w 0).mulVec (gear (w.tmod gs) a).top))) WKind.set
+      ∈ Gen.Smooth._transmission (K := ℝ) nv bp br (fun b => b) dofnum dofadr jt jq jd dofbody (fun _ => -1) (fun s => s) squat tn ta tc
+          (fun _ => 4) (fun _ => ⟨1, 0⟩) crank gear anc qpos xquat sxpos sxmat com cdof tJ tL mnnz lo rn ra rc mo
+          gs a0 a1 a2 cs a3 a4 a5 qs a6 a7 (fuel + 2) w a := by
+  rw [transmission_site_moves nv bp br dofbody anc jt jq jd squat tn ta tc crank gear qpos xquat sxpos sxmat com cdof tJ tL mnnz
+        lo rn ra rc mo gs a0 a1 a2 cs a3 a4 a5 qs a6 a7 fuel w a hg0 hg3 hg4 hg5]
+  simp only [List.mem_cons, List.mem_nil_iff, or_false]
+  right; right; right; right; right
+  simp only [jac_dof, hworld, hbody, decide_true, decide_false, if_true, if_false, Bool.false_eq_true]
+  congr 2
+  simp only [V3.dot, V3.sub, V3.fill, V3.add, slit, hadd, hsub, hmul]
+  ring
+
+open Mjw.Lemmas.C03Trn in
+/-- non-vacuity and sensitivity: body 1 turns about the world z axis through the origin (`cdof = (0,0,1; 0,0,0)`,
+    `subtree_com = 0`), reference site at `(1,0,0)` with identity frame, actuated site at the origin, gear `(1,1,0; 0,0,0)`:
+    the moment is `−((0,0,1) × (1,0,0)) · (1,1,0) = −1`.  Taken at the actuated site's position it would be `0`. -/
+example :
+    Write.mk "actuator_moment_out" [0, 7] (WVal.f (-1 : ℝ)) WKind.set
+      ∈ Gen.Smooth._transmission (K := ℝ) 1 (fun _ => 0) (fun b => b) (fun b => b) dofnum dofadr (fun _ => 3) (fun _ => 0) (fun _ => 0)
+          (fun _ => 1) (fun _ => -1) (fun s => s) (fun _ _ => ⟨1, 0, 0, 0⟩) (fun _ => 0) (fun _ => 0) (fun _ => 0)
+          (fun _ => 4) (fun _ => ⟨0, 1⟩) (fun _ _ => 0) (fun _ _ => ⟨1, 1, 0, 0, 0, 0⟩) (fun b _ => if b = 1 then 1 else 0)
+          (fun _ _ => 0) (fun _ _ => ⟨1, 0, 0, 0⟩) (fun _ s => if s = 1 then ⟨1, 0, 0⟩ else ⟨0, 0, 0⟩) (fun _ _ => ⟨1, 0, 0, 0, 1, 0, 0, 0, 1⟩)
+          (fun _ _ => ⟨0, 0, 0⟩) (fun _ _ => ⟨0, 0, 1, 0, 0, 0⟩) (fun _ _ => 0) (fun _ _ => 0) (fun _ => 0)
+          (fun _ _ => 0) (fun _ _ => 0) (fun _ _ => 0) (fun _ _ => 0) (fun _ _ => 0)
+          1 0 0 0 1 0 0 0 1 0 7 (0 + 2) 0 0 := by
+  have h := transmission_refsite_moment_at_refsite_point 1 (fun _ => 0) (fun b => b) (fun _ => 1) (fun b _ => if b = 1 then 1 else 0)
+    (fun _ => 3) (fun _ => 0) (fun _ => 0) (fun _ _ => ⟨1, 0, 0, 0⟩) (fun _ => 0) (fun _ => 0) (fun _ => 0) (fun _ _ => 0)
+    (fun _ _ => ⟨1, 1, 0, 0, 0, 0⟩) (fun _ _ => 0) (fun _ _ => ⟨1, 0, 0, 0⟩) (fun _ s => if s = 1 then ⟨1, 0, 0⟩ else ⟨0, 0, 0⟩)
+    (fun _ _ => ⟨1, 0, 0, 0, 1, 0, 0, 0, 1⟩) (fun _ _ => ⟨0, 0, 0⟩) (fun _ _ => ⟨0, 0, 1, 0, 0, 0⟩) (fun _ _ => 0) (fun _ _ => 0) (fun _ => 0)
+    (fun _ _ => 0) (fun _ _ => 0) (fun _ _ => 0) (fun _ _ => 0) (fun _ _ => 0) 1 0 0 0 1 0 0 0 1 0 7 0 0 0
+    (by norm_num) rfl rfl rfl (by simp) (by simp)
+  simpa [V3.dot, V3.sub, V3.add, V3.cross, V6.top, V6.bottom, M33.mulVec] using h
 
 end Mjw.Props.C03
